@@ -129,6 +129,7 @@ Fixpoint has_unknown (h : host) (e : expr) : Prop :=
   | XVar n => unknown_var h n
   | XCall _ name args => unknown_fn h name \/
       (fix any (l : list expr) : Prop := match l with [] => False | a :: r => has_unknown h a \/ any r end) args
+  | XArr _ items => (fix any (l : list expr) : Prop := match l with [] => False | a :: r => has_unknown h a \/ any r end) items
   | XNeg e | XPar e => has_unknown h e
   | XBin _ l r => has_unknown h l \/ has_unknown h r
   end.
@@ -146,7 +147,7 @@ Proof.
 Qed.
 Theorem unknown_never_value h : forall e, has_unknown h e -> forall v, fst (xval h e) <> ROk v.
 Proof.
-  induction e as [d|ip fp|fp|pn|pa pb|str|xe|n|k lab|k1 l1 k2 l2|sp name args IHargs|e IH|b l r IHl IHr|e IH] using expr_ind'; cbn [has_unknown]; intros U v H;
+  induction e as [d|ip fp|fp|pn|pa pb|str|xe|n|k lab|k1 l1 k2 l2|sp name args IHargs|sp items IHitems|e IH|b l r IHl IHr|e IH] using expr_ind'; cbn [has_unknown]; intros U v H;
     try contradiction.
   - destruct U as [L S]. cbn [xval] in H. rewrite (variable_unknown h n L S) in H. discriminate.
   - change (unknown_fn h name \/ any_unknown h args) in U. cbn [xval] in H.
@@ -155,6 +156,11 @@ Proof.
     + destruct (xvals_ok h args vs Hargs) as [F _]. clear Hargs Hcall.
       induction IHargs as [|a l Ha Hl IHl]; [contradiction|]. inversion F as [|? ? Fa Fl]; subst.
       destruct U as [U|U]; [destruct Fa as [w Fa]; exact (Ha U w Fa)|exact (IHl U Fl)].
+  - change (any_unknown h items) in U. cbn [xval] in H.
+    apply ebind_ok in H. destruct H as (vs & Hitems & _ & _).
+    destruct (xvals_ok h items vs Hitems) as [F _]. clear Hitems.
+    induction IHitems as [|a l Ha Hl IHl]; [contradiction|]. inversion F as [|? ? Fa Fl]; subst.
+    destruct U as [U|U]; [destruct Fa as [w Fa]; exact (Ha U w Fa)|exact (IHl U Fl)].
   - cbn [xval] in H. apply ebind_ok in H. destruct H as (w & Hw & _). exact (IH U w Hw).
   - cbn [xval] in H. apply ebind_ok in H. destruct H as (lv & Hl & H & _). apply ebind_ok in H. destruct H as (rv & Hr & _).
     destruct U as [U|U]; [exact (IHl U lv Hl)|exact (IHr U rv Hr)].
@@ -179,6 +185,7 @@ Fixpoint refs (e : expr) : list ref :=
   | XCell _ l => [RCell (upper_text l)]
   | XRange _ _ _ _ => [RRange]
   | XCall _ n args => flat_map refs args ++ [RCall n (length args)]
+  | XArr _ items => flat_map refs items
   | XNeg e | XPar e => refs e
   | XBin _ l r => refs l ++ refs r
   end.
@@ -192,7 +199,7 @@ Proof.
 Qed.
 Theorem events_postorder h : forall e v, fst (xval h e) = ROk v -> map ref_of (snd (xval h e)) = refs e.
 Proof.
-  induction e as [d|ip fp|fp|pn|pa pb|str|xe|n|k lab|k1 l1 k2 l2|sp name args IHargs|e IH|b l r IHl IHr|e IH] using expr_ind'; intros v H.
+  induction e as [d|ip fp|fp|pn|pa pb|str|xe|n|k lab|k1 l1 k2 l2|sp name args IHargs|sp items IHitems|e IH|b l r IHl IHr|e IH] using expr_ind'; intros v H.
   - reflexivity.
   - reflexivity.
   - reflexivity.
@@ -211,6 +218,11 @@ Proof.
     destruct (xvals_ok h args vs Hargs) as [_ L]. rewrite L. f_equal. clear Hcall L.
     revert vs Hargs. induction IHargs as [|a l Ha Hl IHl]; intros vs Hargs; [reflexivity|].
     rewrite xvals_cons in Hargs |- *. apply ebind_ok in Hargs. destruct Hargs as (w & Hw & H2 & ->).
+    apply ebind_ok in H2. destruct H2 as (ws & Hws & _ & ->). cbn [snd flat_map]. rewrite app_nil_r, map_app.
+    rewrite (Ha w Hw), (IHl ws Hws). reflexivity.
+  - cbn [xval refs] in *. apply ebind_ok in H. destruct H as (vs & Hitems & _ & ->). cbn [snd]. rewrite app_nil_r.
+    revert vs Hitems. induction IHitems as [|a l Ha Hl IHl]; intros vs Hitems; [reflexivity|].
+    rewrite xvals_cons in Hitems |- *. apply ebind_ok in Hitems. destruct Hitems as (w & Hw & H2 & ->).
     apply ebind_ok in H2. destruct H2 as (ws & Hws & _ & ->). cbn [snd flat_map]. rewrite app_nil_r, map_app.
     rewrite (Ha w Hw), (IHl ws Hws). reflexivity.
   - cbn [xval refs] in *. apply ebind_ok in H. destruct H as (w & Hw & _ & ->). cbn [snd]. rewrite app_nil_r. exact (IH w Hw).
